@@ -177,8 +177,17 @@ func c10Scenario(r *Run, idx int, cs c10Case) {
 		}
 		r.CountMax("max_writers_parked_on_full_queue_at_close", int64(cs.Writers))
 	} else {
+		// bounded: if the clients stop making progress for a minute the cache is closed anyway and the
+		// goroutine check below says where they are
+		lastOps, lastMove := int64(-1), time.Now()
 		for ops.Load() < int64(cs.CloseAt) {
 			time.Sleep(50 * time.Microsecond)
+			if o := ops.Load(); o != lastOps {
+				lastOps, lastMove = o, time.Now()
+			} else if time.Since(lastMove) > time.Minute {
+				r.Inconclusive(1)
+				break
+			}
 		}
 	}
 	r.CountMax("max_queue_len_seen_at_close", int64(st.VerifQueueLen()))
@@ -497,6 +506,9 @@ func runC10(r *Run) {
 				cs.CloseAt = 100 + rng.Intn(40000)
 				cs.Readers = []int{0, 1, 8, 64}[rng.Intn(4)]
 				cs.WaitToo = rng.Intn(2) == 0
+			}
+			if cs.Writers == 0 && cs.Readers == 0 {
+				cs.Readers = 8 // a scenario needs clients: with none, "close after CloseAt operations" never comes
 			}
 			c10Scenario(r, rep*1000+i, cs)
 		}
